@@ -155,9 +155,11 @@ class Gen(object):
             if r.random() < p * 0.6:
                 rules['empty'] = r.choice([True, False])
             if r.random() < p * 0.5:
-                rules['contains'] = r.choice([1, 'a', [1, 2], ['a'], 2.0])
+                rules['contains'] = r.choice([1, 'a', [1, 2], ['a'], 2.0, [[1]], [{'x': 1}, 1], [[1], [1]]])     # unhashable expected members too
             if r.random() < p * 0.5:
                 rules['allowed'] = r.sample(INTS + STRS, r.randrange(1, 5))
+                if r.random() < 0.15:
+                    rules['allowed'] = {k: 1 for k in rules['allowed']}        # a mapping is a container too: read as its keys
             if r.random() < p * 0.4:
                 rules['forbidden'] = r.sample(INTS + STRS, r.randrange(1, 3))
             if r.random() < p * 0.2:
